@@ -19,6 +19,7 @@ import RF.Driver.Comment
 import RF.Driver.ParseErrs
 import RF.Driver.Lists
 import RF.Driver.StringFmt
+import RF.Driver.OptRewrites
 /-!
 `rfmodel`: one request per line on stdin, one response per line on stdout.
 `?` is printed for a request no handler understands (the harness treats it as a protocol error,
@@ -46,7 +47,8 @@ def handlers : List (String → List String → Option String) :=
    RF.Driver.Comment.handle,
    RF.Driver.ParseErrs.handle,
    RF.Driver.Lists.handle,
-   RF.Driver.StringFmt.handle]
+   RF.Driver.StringFmt.handle,
+   RF.Driver.OptRewrites.handle]
 
 def dispatch (line : String) : String :=
   match (line.trimAscii.toString.splitOn " ").filter (· ≠ "") with
